@@ -342,7 +342,12 @@ func (p *Packer) packWalkFn(root, src, dst string, tarW *tar.Writer, meta *Meta,
 					}
 				}
 				inner := append(walking[:len(walking):len(walking)], realTarget)
-				return filepath.Walk(resolved.absTarget, p.packWalkFn(root, resolved.absTarget, path, tarW, meta, ignoreRules, inner))
+				// The content of the target directory appears in the slug
+				// at the place of this link, which is not the link's own
+				// path when the link was itself found while walking a
+				// dereferenced directory.
+				linkInSlug := strings.Replace(path, src, dst, 1)
+				return filepath.Walk(resolved.absTarget, p.packWalkFn(root, resolved.absTarget, linkInSlug, tarW, meta, ignoreRules, inner))
 			}
 
 			// Dereference this symlink by updating the header with the target file
